@@ -259,8 +259,13 @@ class _ReusablePoolExecutor(ProcessPoolExecutor):
             # sentinels of the newly spawned workers.
             with self._shutdown_lock:
                 self._executor_manager_thread_wakeup.wakeup()
-            processes = list(self._processes.values())
-            while not all(p.is_alive() for p in processes):
+            # Poll the live worker table rather than a snapshot: a worker that
+            # exits meanwhile (idle timeout) is removed from the table by the
+            # executor manager thread, and a crash flags the executor broken.
+            while (
+                not all(p.is_alive() for p in list(self._processes.values()))
+                and not self._flags.broken
+            ):
                 time.sleep(1e-3)
 
     def _wait_job_completion(self):
